@@ -554,7 +554,24 @@ def run_pipeline(
         dct["/data"] = detector.data
 
         # Create the final `DataTree` from the dictionary.
-        data_tree = xr.DataTree.from_dict(dct)
+        try:
+            data_tree = xr.DataTree.from_dict(dct)
+        except ValueError:
+            if "/" not in dct:
+                raise
+
+            # With the flat layout every other node inherits the coordinates of the
+            # buckets. A node with its own values for one of them (e.g. intermediate
+            # results on another wavelength grid) cannot be stored this way
+            warnings.warn(
+                "The results cannot inherit the coordinates of the buckets.\n"
+                "The buckets are stored in group '/bucket' as with "
+                "'pyxel.run_mode(..., with_inherited_coords=True)'.",
+                stacklevel=5,
+            )
+            dct["/bucket"] = dct.pop("/")
+            data_tree = xr.DataTree.from_dict(dct)
+
         data_tree.attrs["pyxel version"] = __version__
 
         if progressbar:
